@@ -67,6 +67,10 @@ def render(e):
         return "(lambda %s: %s)(%s)" % (e[1], render(e[2]), render(e[3]))
     if k == "fail":
         return "_fail(%r)" % (e[1],)
+    if k == "failx":
+        return "_fail(%r + str(%s))" % (e[1], e[2]) if e[2] else "_fail(%r)" % (e[1],)
+    if k == "failnone":
+        return "(%s if _failn(%r) == 0 else None)" % (render(e[2]), e[1])
     raise ValueError("cannot render %r" % (e,))
 
 
@@ -103,7 +107,7 @@ def cells_source(c, name=None):
 def walk(e):
     yield e
     k = e[0]
-    if k in ("lit", "var", "name", "fail", "none"):
+    if k in ("lit", "var", "name", "fail", "failx", "none"):
         return
     if k == "attr" or k == "value":
         yield from walk(e[1])
@@ -125,6 +129,8 @@ def walk(e):
         yield from walk(e[3])
     elif k == "lam":
         yield from walk(e[2]); yield from walk(e[3])
+    elif k == "failnone":
+        yield from walk(e[2])
 
 
 def global_names(e):
